@@ -205,10 +205,13 @@ func runC09(r *Run) {
 	}
 	// sign/verify sibling
 	if f := r.fn(P, pkgIJWS, "sign"); f != nil {
-		r.requireSucc(P+".sign.verify.sibling", "if signing and verification build the signing input differently, genuine signatures do not verify", f, core.Ctx{}, "",
-			"ok(internal/jws.checkJWSHeaders($0))",
-			"ok(internal/jws.signingInput($0, $1))",
-			"cmp(<result> == Signer.Sign($2, internal/jws.signingInput($0, $1)))")
+		r.requireSuccAlt(P+".sign.verify.sibling", "if signing and verification build the signing input differently, genuine signatures do not verify", f, core.Ctx{}, "",
+			[]string{"ok(internal/jws.checkJWSHeaders($0))",
+				"ok(internal/jws.signingInput($0, $1))",
+				"cmp(<result> == Signer.Sign($2, internal/jws.signingInput($0, $1)))"},
+			[]string{`hit($0, "alg")`,
+				"ok(internal/jws.signingInput($0, $1))",
+				"cmp(<result> == Signer.Sign($2, internal/jws.signingInput($0, $1)))"})
 	}
 	if f := r.fn(P, pkgIJWS, "NewJWS"); f != nil {
 		r.requireSucc(P+".sign.headers", "the protected headers that are serialized must be the ones that were signed", f, core.Ctx{}, "",
@@ -251,19 +254,39 @@ func runC09(r *Run) {
 	}
 	// --- hdr
 	if f := r.fn(P, pkgIJWS, "parseCompacted"); f != nil {
-		r.requireSucc(P+".hdr.parse", "a compact JWS without alg, with an empty signature or not of three parts must be rejected", f, core.Ctx{}, "",
-			`cmp(len(strings.Split($0, ".")) == 3)`,
-			"ok(internal/jws.parseCompactedHeaders(_))", "ok(internal/jws.checkJWSHeaders(_))",
-			"ok(internal/jws.parseCompactedPayload(_, _))",
-			"cmp(?sig == <result>.signature)", "cmp(len(?sig) != 0)")
+		r.requireSuccAlt(P+".hdr.parse", "a compact JWS without alg, with an empty signature or not of three parts must be rejected", f, core.Ctx{}, "",
+			[]string{`cmp(len(strings.Split($0, ".")) == 3)`,
+				"ok(internal/jws.parseCompactedHeaders(_))", "ok(internal/jws.checkJWSHeaders(_))",
+				"ok(internal/jws.parseCompactedPayload(_, _))",
+				"cmp(?sig == <result>.signature)", "cmp(len(?sig) != 0)"},
+			// (the alg test written where the headers are parsed)
+			[]string{`cmp(len(strings.Split($0, ".")) == 3)`,
+				"ok(internal/jws.parseCompactedHeaders(_))", `hit(_, "alg")`,
+				"ok(internal/jws.parseCompactedPayload(_, _))",
+				"cmp(?sig == <result>.signature)", "cmp(len(?sig) != 0)"})
 	}
-	if f := r.fn(P, pkgIJWS, "checkJWSHeaders"); f != nil {
+	if f := r.P.Func(pkgIJWS, "checkJWSHeaders"); f != nil && f.Blocks != nil {
 		r.requireSucc(P+".hdr.alg", "alg must be present", f, core.Ctx{}, "", `hit($0, "alg")`)
 	}
 	if f := r.fn(P, pkgIJWS, "parseCompactedPayload"); f != nil {
+		// (parameters by type, not by position: the encoded payload is the string, the detached payload comes in an
+		// options struct or as a byte slice)
+		payload, detached := "$0", "len($1.detachedPayload)"
+		for _, prm := range f.Params {
+			switch t := prm.Type().Underlying().(type) {
+			case *types.Basic:
+				if t.Kind() == types.String {
+					payload = "$" + prm.Name()
+				}
+			case *types.Slice:
+				detached = "len($" + prm.Name() + ")"
+			case *types.Pointer:
+				detached = "len($" + prm.Name() + ".detachedPayload)"
+			}
+		}
 		r.requireEachSuccess(P+".hdr.payload", "an empty payload is an error unless a detached payload is supplied", f, core.Ctx{},
-			[]string{"cmp(len($1.detachedPayload) > 0)"},
-			[]string{"ok(Encoding.DecodeString(_, $0))", "cmp(len(Encoding.DecodeString(_, $0)) != 0)"})
+			[]string{"cmp(" + detached + " > 0)"},
+			[]string{"ok(Encoding.DecodeString(_, " + payload + "))", "cmp(len(Encoding.DecodeString(_, " + payload + ")) != 0)"})
 	}
 	if f := r.fn(P, pkgIJWS, "signingInput"); f != nil {
 		r.requireEachSuccessPath(P+".hdr.b64", "a non-boolean b64 header must be an error", f, core.Ctx{},
